@@ -107,19 +107,20 @@ def _validate_linear_constraints(
     if config.linear_constraints is None:
         return
 
+    # Each constraint is either an equality or an inequality constraint:
+    is_eq = np.isclose(
+        config.linear_constraints.lower_bounds,
+        config.linear_constraints.upper_bounds,
+        rtol=0.0,
+        atol=1e-15,
+    )
+
     _check_constraint(
         "linear:ineq",
         method,
         supported_constraints,
         required_constraints,
-        have_constraint=not bool(
-            np.allclose(
-                config.linear_constraints.lower_bounds,
-                config.linear_constraints.upper_bounds,
-                rtol=0.0,
-                atol=1e-15,
-            )
-        ),
+        have_constraint=bool(np.any(~is_eq)),
     )
 
     _check_constraint(
@@ -127,14 +128,7 @@ def _validate_linear_constraints(
         method,
         supported_constraints,
         required_constraints,
-        have_constraint=bool(
-            np.allclose(
-                config.linear_constraints.lower_bounds,
-                config.linear_constraints.upper_bounds,
-                rtol=0.0,
-                atol=1e-15,
-            )
-        ),
+        have_constraint=bool(np.any(is_eq)),
     )
 
 
@@ -148,19 +142,20 @@ def _validate_nonlinear_constraints(
     if nonlinear_constraints is None:
         return
 
+    # Each constraint is either an equality or an inequality constraint:
+    is_eq = np.isclose(
+        nonlinear_constraints.lower_bounds,
+        nonlinear_constraints.upper_bounds,
+        rtol=0.0,
+        atol=1e-15,
+    )
+
     _check_constraint(
         "nonlinear:ineq",
         method,
         supported_constraints,
         required_constraints,
-        have_constraint=not bool(
-            np.allclose(
-                nonlinear_constraints.lower_bounds,
-                nonlinear_constraints.upper_bounds,
-                rtol=0.0,
-                atol=1e-15,
-            )
-        ),
+        have_constraint=bool(np.any(~is_eq)),
     )
 
     _check_constraint(
@@ -168,14 +163,7 @@ def _validate_nonlinear_constraints(
         method,
         supported_constraints,
         required_constraints,
-        have_constraint=bool(
-            np.allclose(
-                nonlinear_constraints.lower_bounds,
-                nonlinear_constraints.upper_bounds,
-                rtol=0.0,
-                atol=1e-15,
-            )
-        ),
+        have_constraint=bool(np.any(is_eq)),
     )
 
 
